@@ -1,3 +1,190 @@
-(* C03 placeholder while the model is validated *)
-From Coq Require Import ZArith List.
-From PCB Require Import lib.PyInt gen.Gen_mbf model.MBF.
+(* C03 - Numeric conversions and binary encodings are exact and consistent.
+   Only statements, `exact`/short assembly, Print Assumptions and non-vacuity examples here.
+
+   value_scaled v = (exact mathematical value of v) * 2^184 (an integer) for Integer/Single/Double v;
+   S184 = 2^184; f_sval C b = value of the float encoding b times 2^bias (model/MBF.v).
+   round_half_away p q, trunc_div p q, floor_div p q : the rounding / truncation / floor of the rational p/q.
+   v_cint, v_fix, v_int, v_csng, v_cdbl, v_mk*, v_cv*, v_hex, v_oct, v_from_hex, v_from_oct model the
+   values.py entry points on top of the regenerated Float methods (gen/Gen_mbf.v). *)
+From Coq Require Import ZArith List Bool Lia.
+From PCB Require Import lib.Result lib.PyInt lib.MBFPrims gen.Gen_mbf model.MBF
+  proofs.MBF_base proofs.MBF_convert proofs.MBF_round proofs.MBF_digits proofs.MBF_values.
+Import ListNotations.
+Open Scope Z_scope.
+
+Theorem C03_formats : fmt_ok Single_consts /\ fmt_ok Double_consts.
+Proof. exact (conj Single_ok Double_ok). Qed.
+Print Assumptions C03_formats.
+
+(* ---- CINT --------------------------------------------------------------------------------------- *)
+
+(* Float.to_int (regenerated) is round-half-away-from-zero of the exact value, for every encoding *)
+Theorem C03_to_int : forall C b, fmt_ok C -> buf_ok C b ->
+  mbf_to_int C b = round_half_away (f_sval C b) (2 ^ c_bias C).
+Proof. exact to_int_spec. Qed.
+Print Assumptions C03_to_int.
+
+(* round_half_away p q is the integer nearest to p/q, exact halves going away from zero *)
+Theorem C03_round_half_away_meaning : forall p q, 0 < q ->
+  let r := round_half_away p q in
+  2 * q * Z.abs r - q <= 2 * Z.abs p < 2 * q * Z.abs r + q /\ 0 <= r * p.
+Proof. exact round_half_away_char. Qed.
+Print Assumptions C03_round_half_away_meaning.
+
+(* CINT of any numeric value: the rounded exact value, Overflow exactly outside -32768..32767 *)
+Theorem C03_cint : forall v, value_ok v -> is_num v = true ->
+  let r := round_half_away (value_scaled v) S184 in
+  (in_int16 r -> exists b, v_cint v = Ok (VInt b) /\ zlen b = 2 /\ bytes_ok b /\ i_val b = r) /\
+  (v_cint v = Err err_overflow <-> ~ in_int16 r).
+Proof.
+  intros v Hok Hn. cbv zeta. rewrite (v_cint_spec v Hok Hn). cbv zeta. unfold in_int16.
+  set (r := round_half_away (value_scaled v) S184).
+  destruct (Z.leb_spec (-32768) r); destruct (Z.leb_spec r 32767); cbn [andb]; split;
+    try (intros; exfalso; lia); try (split; [intros _; lia | reflexivity]).
+  - intros _. exists (i_encode r). destruct (i_encode_ok r). rewrite i_val_i_encode by lia. auto.
+  - split; [discriminate | intros H1; exfalso; apply H1; lia].
+Qed.
+Print Assumptions C03_cint.
+
+(* ---- FIX and INT -------------------------------------------------------------------------------- *)
+
+Theorem C03_fix : forall v, value_ok v -> is_num v = true ->
+  exists v', v_fix v = Ok v' /\ value_ok v' /\ v_tag v' = v_tag v /\
+    value_scaled v' = trunc_div (value_scaled v) S184 * S184.
+Proof. exact v_fix_spec. Qed.
+Print Assumptions C03_fix.
+
+Theorem C03_int : forall v, value_ok v -> is_num v = true ->
+  exists v', v_int v = Ok v' /\ value_ok v' /\ v_tag v' = v_tag v /\
+    value_scaled v' = floor_div (value_scaled v) S184 * S184.
+Proof. exact v_int_spec. Qed.
+Print Assumptions C03_int.
+
+(* the same on the regenerated methods, for every encoding of either float class *)
+Theorem C03_itrunc_ifloor : forall C b, fmt_ok C -> buf_ok C b ->
+  (exists b', mbf_itrunc C b = Ok b' /\ buf_ok C b' /\
+     f_sval C b' = Z.quot (f_sval C b) (2 ^ c_bias C) * 2 ^ c_bias C) /\
+  (exists b', f_ifloor C b = Ok b' /\ buf_ok C b' /\
+     f_sval C b' = (f_sval C b / 2 ^ c_bias C) * 2 ^ c_bias C).
+Proof. intros C b HC Hb. split; [exact (itrunc_spec C b HC Hb) | exact (ifloor_spec C b HC Hb)]. Qed.
+Print Assumptions C03_itrunc_ifloor.
+
+(* ---- MKI$ MKS$ MKD$ / CVI CVS CVD ---------------------------------------------------------------- *)
+
+(* for every 2/4/8-byte string s: CVx(s) is the value whose encoding is s, and MKx$ gives s back *)
+Theorem C03_mk_cv_inverse : forall hard s,
+  (zlen s = 2 -> v_cvi (VStr s) = Ok (VInt s) /\ v_mki (VInt s) = Ok (VStr s)) /\
+  (zlen s = 4 -> v_cvs (VStr s) = Ok (VSng s) /\ v_mks hard (VSng s) = Ok (VStr s)) /\
+  (zlen s = 8 -> v_cvd (VStr s) = Ok (VDbl s) /\ v_mkd (VDbl s) = Ok (VStr s)).
+Proof. exact mk_cv_inverse. Qed.
+Print Assumptions C03_mk_cv_inverse.
+
+Theorem C03_cv_prefix : forall s,
+  (2 <= zlen s -> v_cvi (VStr s) = Ok (VInt (firstn 2 s))) /\ (zlen s < 2 -> v_cvi (VStr s) = Err err_ifc) /\
+  (4 <= zlen s -> v_cvs (VStr s) = Ok (VSng (firstn 4 s))) /\ (zlen s < 4 -> v_cvs (VStr s) = Err err_ifc) /\
+  (8 <= zlen s -> v_cvd (VStr s) = Ok (VDbl (firstn 8 s))) /\ (zlen s < 8 -> v_cvd (VStr s) = Err err_ifc).
+Proof. exact cv_prefix. Qed.
+Print Assumptions C03_cv_prefix.
+
+(* ---- single -> double is exact ------------------------------------------------------------------- *)
+
+Theorem C03_single_to_double_exact : forall s, buf_ok Single_consts s ->
+  exists d, v_cdbl (VSng s) = Ok (VDbl d) /\ buf_ok Double_consts d /\
+    value_scaled (VDbl d) = value_scaled (VSng s).
+Proof. intros s Hs. exact (v_cdbl_exact (VSng s) Hs eq_refl). Qed.
+Print Assumptions C03_single_to_double_exact.
+
+(* every numeric value converts to double exactly *)
+Theorem C03_cdbl_exact : forall v, value_ok v -> is_num v = true ->
+  exists d, v_cdbl v = Ok (VDbl d) /\ buf_ok Double_consts d /\ value_scaled (VDbl d) = value_scaled v.
+Proof. exact v_cdbl_exact. Qed.
+Print Assumptions C03_cdbl_exact.
+
+(* ---- double -> single ---------------------------------------------------------------------------- *)
+
+(* X = the 56-bit mantissa of the double, hi = its top 24 bits, rem = the 32 bits that do not fit.
+   The singles with mantissas hi and hi+1 (same exponent; hi+1 = 2^24 is the next binade) are the two
+   neighbours of the double.  The code rounds to r: exact when rem = 0, the nearer neighbour whenever
+   rem is not in the band [half, half + ulp/256) above halfway, and there an exact-half-to-even decision
+   on the truncated carry byte (which is the nearer one only at the exact half) *)
+Theorem C03_narrow_rounding : forall X, 2 ^ 55 <= X < 2 ^ 56 ->
+  let hi := X / 2 ^ 32 in let rem := X mod 2 ^ 32 in let r := round_even8 (X / 2 ^ 24) in
+  2 ^ 23 <= hi < 2 ^ 24 /\ hi * 2 ^ 32 <= X < (hi + 1) * 2 ^ 32 /\ (r = hi \/ r = hi + 1) /\
+  (rem = 0 -> r = hi) /\ (rem < 2 ^ 31 -> r = hi) /\ (2 ^ 31 + 2 ^ 24 <= rem -> r = hi + 1) /\
+  (2 ^ 31 <= rem < 2 ^ 31 + 2 ^ 24 -> r = if Z.odd hi then hi + 1 else hi).
+Proof. exact narrow_rounding. Qed.
+Print Assumptions C03_narrow_rounding.
+
+(* CSNG of a non-zero double: the single of mantissa r at the double's exponent, or Overflow when that
+   would need exponent byte 256 (hard = the error handler raises; otherwise it prints Overflow and
+   the result is the largest single of that sign) *)
+Theorem C03_double_to_single : forall hard d, buf_ok Double_consts d -> f_exp d <> 0 ->
+  let X := f_man Double_consts d in let r := round_even8 (X / 2 ^ 24) in
+  let neg := f_neg Double_consts d in
+  value_scaled (VDbl d) = (if neg then -1 else 1) * X * 2 ^ f_exp d /\
+  (~ (r = 2 ^ 24 /\ f_exp d = 255) ->
+     exists s, v_csng hard (VDbl d) = Ok (VSng s) /\ buf_ok Single_consts s /\
+       value_scaled (VSng s) = (if neg then -1 else 1) * (r * 2 ^ 32) * 2 ^ f_exp d) /\
+  (r = 2 ^ 24 /\ f_exp d = 255 ->
+     v_csng hard (VDbl d) = if hard then Err err_overflow else Ok (VSng (f_max Single_consts neg))).
+Proof. exact v_csng_double_spec. Qed.
+Print Assumptions C03_double_to_single.
+
+(* a zero double (any encoding with exponent byte 0) converts to the canonical zero single *)
+Theorem C03_double_zero_to_single : forall hard d, buf_ok Double_consts d -> f_exp d = 0 ->
+  v_csng hard (VDbl d) = Ok (VSng [0; 0; 0; 0]).
+Proof.
+  intros hard d Hd He. unfold v_csng, v_to_single. rewrite (to_single_spec d Hd), He. reflexivity.
+Qed.
+Print Assumptions C03_double_zero_to_single.
+
+(* ---- HEX$ / OCT$ and &H / &O --------------------------------------------------------------------- *)
+
+(* positional digits: for EVERY n >= 0 and EVERY base > 1 the digits re-read give n *)
+Theorem C03_digits_roundtrip : forall base n, 1 < base -> 0 <= n -> of_digits base (to_digits base n) = n.
+Proof. exact digits_roundtrip. Qed.
+Print Assumptions C03_digits_roundtrip.
+
+Theorem C03_format_parse : forall base n, 1 < base <= 16 -> 0 <= n -> py_int base (fmt_base base n) = Ok n.
+Proof. exact py_int_fmt. Qed.
+Print Assumptions C03_format_parse.
+
+(* HEX$ / OCT$ of every 16-bit integer, re-read as &H.. / &O.., is the same integer (same two bytes) *)
+Theorem C03_hex_roundtrip : forall b, zlen b = 2 -> bytes_ok b ->
+  exists ds, v_hex (VInt b) = Ok (VStr ds) /\ ds = fmt_base 16 (i_uval b) /\ v_from_hex ds = Ok (VInt b).
+Proof. exact hex_roundtrip. Qed.
+Print Assumptions C03_hex_roundtrip.
+
+Theorem C03_oct_roundtrip : forall b, zlen b = 2 -> bytes_ok b ->
+  exists ds, v_oct (VInt b) = Ok (VStr ds) /\ v_from_oct ds = Ok (VInt b).
+Proof. exact oct_roundtrip. Qed.
+Print Assumptions C03_oct_roundtrip.
+
+(* instantiated for all 0..65535 (the unsigned reading of the 65536 integers) *)
+Theorem C03_hex_oct_all_integers : forall n, 0 <= n < 65536 ->
+  (exists ds, v_hex (VInt (i_encode n)) = Ok (VStr ds) /\ v_from_hex ds = Ok (VInt (i_encode n))) /\
+  (exists ds, v_oct (VInt (i_encode n)) = Ok (VStr ds) /\ v_from_oct ds = Ok (VInt (i_encode n))).
+Proof.
+  intros n Hn. destruct (i_encode_ok n) as [Hl Hb].
+  destruct (hex_roundtrip _ Hl Hb) as (ds & H1 & _ & H2). destruct (oct_roundtrip _ Hl Hb) as (ds' & H3 & H4).
+  split; eauto.
+Qed.
+Print Assumptions C03_hex_oct_all_integers.
+
+(* ---- non-vacuity --------------------------------------------------------------------------------- *)
+Example C03_nonvacuous :
+  let s25 := VSng [0; 0; 32; 130] in let sm25 := VSng [0; 0; 160; 130] in        (* 2.5 and -2.5 *)
+  let big := VSng [0; 255; 127; 144] in                                          (* 32767.5 *)
+  let tie := VDbl [0; 0; 0; 128; 0; 0; 0; 129] in                                (* 1 + 2^-24: exact half *)
+  let tie1 := VDbl [0; 0; 0; 128; 1; 0; 0; 129] in                               (* odd mantissa + half *)
+  value_ok s25 /\ value_ok sm25 /\ value_ok big /\ value_ok tie /\
+  v_cint s25 = Ok (VInt [3; 0]) /\ v_cint sm25 = Ok (VInt [253; 255]) /\ v_cint big = Err err_overflow /\
+  v_fix sm25 = Ok (VSng [0; 0; 128; 130]) /\ v_int sm25 = Ok (VSng [0; 0; 192; 130]) /\
+  v_csng true tie = Ok (VSng [0; 0; 0; 129]) /\ v_csng true tie1 = Ok (VSng [2; 0; 0; 129]) /\
+  v_csng true (VDbl [0; 0; 0; 128; 255; 255; 127; 255]) = Err err_overflow /\
+  v_hex (VInt [255; 255]) = Ok (VStr [70; 70; 70; 70]) /\ v_from_hex [70; 70; 70; 70] = Ok (VInt [255; 255]) /\
+  v_cvs (VStr [1; 2; 3; 4]) = Ok (VSng [1; 2; 3; 4]).
+Proof.
+  cbv zeta. unfold value_ok, buf_ok.
+  repeat split; try (apply bytesb_ok; reflexivity); vm_compute; reflexivity.
+Qed.
